@@ -103,6 +103,9 @@ func MutexOp(c ssa.CallInstruction) (op string, path string, ok bool) {
 type Locks struct {
 	Fn     *ssa.Function
 	may    bool // union at merges: the set of mutexes held on SOME path
+	depth  int
+	entry  LockSet
+	subs   map[*ssa.Function]*Locks
 	in     map[*ssa.BasicBlock]LockSet
 	Sites  []ssa.CallInstruction // every Lock/RLock call (not deferred)
 	Unlock []ssa.CallInstruction // every Unlock/RUnlock incl. deferred
@@ -134,8 +137,38 @@ func join(a, b LockSet) LockSet {
 	return o
 }
 
-func analyzeLocks(fn *ssa.Function, may bool) *Locks {
-	l := &Locks{Fn: fn, may: may, in: map[*ssa.BasicBlock]LockSet{}}
+func analyzeLocks(fn *ssa.Function, may bool) *Locks { return analyzeLocksFrom(fn, may, LockSet{}, 0) }
+
+// exit: the lock set at the function's normal returns (meet, or join for the may-analysis); deferred unlocks applied.
+func (l *Locks) exit() LockSet {
+	var out LockSet
+	first := true
+	for _, r := range ReturnsOf(l.Fn) {
+		st := l.At(r)
+		// deferred unlocks of this function run before it returns
+		InstrsOwn(l.Fn, func(in ssa.Instruction) {
+			if d, ok := in.(*ssa.Defer); ok {
+				if op, path, ok := MutexOp(d); ok && (op == "Unlock" || op == "RUnlock") {
+					delete(st, path)
+				}
+			}
+		})
+		if first {
+			out, first = st, false
+		} else if l.may {
+			out = join(out, st)
+		} else {
+			out = meet(out, st)
+		}
+	}
+	if out == nil {
+		out = LockSet{}
+	}
+	return out
+}
+
+func analyzeLocksFrom(fn *ssa.Function, may bool, entry LockSet, depth int) *Locks {
+	l := &Locks{Fn: fn, may: may, depth: depth, entry: entry, in: map[*ssa.BasicBlock]LockSet{}}
 	if len(fn.Blocks) == 0 {
 		return l
 	}
@@ -155,7 +188,7 @@ func analyzeLocks(fn *ssa.Function, may bool) *Locks {
 			l.Unlock = append(l.Unlock, c)
 		}
 	})
-	l.in[fn.Blocks[0]] = LockSet{}
+	l.in[fn.Blocks[0]] = entry.clone()
 	work := []*ssa.BasicBlock{fn.Blocks[0]}
 	for len(work) > 0 {
 		b := work[0]
@@ -189,6 +222,12 @@ func (l *Locks) transferBlock(b *ssa.BasicBlock, st LockSet, until ssa.Instructi
 		if !ok {
 			continue
 		}
+		if h := AbsorbedCallee(c); h != nil && l.depth < absorbDepth {
+			// the helper's net effect on the lock set: analyse it with the current set at its entry
+			sub := analyzeLocksFrom(h, l.may, st, l.depth+1)
+			st = sub.exit()
+			continue
+		}
 		op, path, ok := MutexOp(c)
 		if !ok {
 			continue
@@ -207,6 +246,13 @@ func (l *Locks) transferBlock(b *ssa.BasicBlock, st LockSet, until ssa.Instructi
 
 // At returns the must-hold set immediately before instruction in.
 func (l *Locks) At(in ssa.Instruction) LockSet {
+	if h := in.Parent(); h != l.Fn && l.depth < absorbDepth {
+		// an instruction of an absorbed helper: the helper is analysed starting from the lock set at its call(s) in this region
+		if sub := l.subFor(h); sub != nil {
+			return sub.At(in)
+		}
+		return LockSet{}
+	}
 	b := in.Block()
 	st, ok := l.in[b]
 	if !ok {
@@ -313,4 +359,60 @@ func valueIsMutated(v ssa.Value, depth int) bool {
 		}
 	}
 	return false
+}
+
+// subFor analyses the absorbed helper h with the lock set that holds at its call sites inside l.Fn's region.
+func (l *Locks) subFor(h *ssa.Function) *Locks {
+	if l.subs == nil {
+		l.subs = map[*ssa.Function]*Locks{}
+	}
+	if s, ok := l.subs[h]; ok {
+		return s
+	}
+	l.subs[h] = nil // cycle guard
+	var entry LockSet
+	first := true
+	for _, site := range SitesOf(h) {
+		si := site.(ssa.Instruction)
+		if len(CallChains(l.Fn, si.Parent())) == 0 {
+			continue
+		}
+		st := l.At(si)
+		if _, isDefer := si.(*ssa.Defer); isDefer {
+			st = l.exitBeforeDefers()
+		}
+		if first {
+			entry, first = st, false
+		} else if l.may {
+			entry = join(entry, st)
+		} else {
+			entry = meet(entry, st)
+		}
+	}
+	if first {
+		return nil
+	}
+	sub := analyzeLocksFrom(h, l.may, entry, l.depth+1)
+	l.subs[h] = sub
+	return sub
+}
+
+// exitBeforeDefers: the lock set at the function's returns before any deferred call ran (what a deferred helper starts with).
+func (l *Locks) exitBeforeDefers() LockSet {
+	var out LockSet
+	first := true
+	for _, r := range ReturnsOf(l.Fn) {
+		st := l.At(r)
+		if first {
+			out, first = st, false
+		} else if l.may {
+			out = join(out, st)
+		} else {
+			out = meet(out, st)
+		}
+	}
+	if out == nil {
+		out = LockSet{}
+	}
+	return out
 }
